@@ -340,6 +340,19 @@ WINDOW_CASES = [
     # a window column derived AFTER a take sees only the taken rows
     ("from u\nsort a\ntake 3..5\nderive {r = row_number this}\nfilter r == 1\nselect {id}\n", [(3,)]),
     ("from u\nsort {-a}\ntake 4\nderive {tot = sum c}\nselect {id, tot}\nsort id\n", [(6, 3000), (7, 3000), (8, 3000), (9, 3000)]),
+    # a window column derived AFTER a de-duplication counts the distinct rows (SQL evaluates OVER before DISTINCT: the DISTINCT needs its own sub-query)
+    ("from t\nselect {g, x}\ngroup {g, x} (take 1)\ngroup g (derive {n = count this})\nfilter n > 1\nselect {g, x}\nsort {g, x}\n", [("a", 10), ("a", 20), ("a", 30)]),
+]
+
+
+# what follows a take operates on the taken rows (the take must sit in a sub-query of its own)
+TAKE_CASES = [
+    ("from t\nsort {-x}\ntake 3\nsort b\nselect {g, b, x}\n", [("a", 1, 10), ("a", 2, 30), ("a", 3, 20)]),
+    ("from t\nsort {-x}\ntake 3\nsort x\nselect {x}\n", [(10,), (20,), (30,)]),
+    ("from t\nsort {-x}\ntake 3\nsort x\ntake 2\nselect {x}\n", [(10,), (20,)]),
+    ("from t\nsort {-x}\ntake 3\nfilter b > 1\nselect {x}\n", [(30,), (20,)]),
+    ("from t\nsort {-x}\ntake 3\naggregate {s = sum x}\n", [(60,)]),
+    ("from t\nsort x\ntake 2..4\nsort {-b, g}\nselect {g, b}\n", [("c", 2), ("a", 1), ("c", 1)]),
 ]
 
 
@@ -359,7 +372,12 @@ def replay(failure):
     Rows about complexity (GR / CM / IC): windowed values used by aggregations must come from a sub-query (executed on SQLite)."""
     import setops_reach
     lab = failure.get("obligation", "").split(".", 1)[-1]
-    if lab.startswith(("GR", "CM", "IC", "RO")):
+    if lab.startswith("SO1.Take."):
+        for src, exp in TAKE_CASES:
+            r = _window_try(src, exp)
+            if r["failing"]:
+                return r
+    if lab.startswith(("GR", "CM", "IC", "RO")) or lab.endswith(".Compute"):
         for src, exp in WINDOW_CASES:
             r = _window_try(src, exp)
             if r["failing"]:
